@@ -457,6 +457,7 @@ func checkSendDecision(c *engine.Ctx, rule string) {
 	type conj struct{ present, skip, unique bool }
 	var got conj
 	var refCall, skipCmp ssa.Instruction
+	incViaLocal := false
 	classify := func(v ssa.Value, pol bool) {
 		v = engine.Strip(v)
 		if hasBlock != nil && v == hasBlock && pol {
@@ -471,6 +472,36 @@ func checkSendDecision(c *engine.Ctx, rule string) {
 		l, r := engine.Strip(b.X), engine.Strip(b.Y)
 		lkl, lok := l.(*ssa.Lookup)
 		lkr, rok := r.(*ssa.Lookup)
+		// the post-increment count held in a local: the very value written back to the counter (count[req]+1)
+		isNewCount := func(v ssa.Value) ssa.Instruction {
+			for _, mu := range engine.MapUpdatesOfField([]*ssa.Function{decide}, countF) {
+				if engine.Strip(mu.Value) != v {
+					continue
+				}
+				if add, ok := v.(*ssa.BinOp); ok && add.Op == token.ADD {
+					if lk, ok := engine.Strip(add.X).(*ssa.Lookup); ok && isLoadOfField(lk.X, countF) {
+						if k, ok := engine.ConstInt(add.Y); ok && k == 1 {
+							return mu
+						}
+					}
+				}
+			}
+			return nil
+		}
+		if lok && !rok && isLoadOfField(lkl.X, skipF) && ((b.Op == token.LSS && pol) || (b.Op == token.GEQ && !pol)) {
+			if mu := isNewCount(r); mu != nil {
+				got.skip = true
+				incViaLocal = true
+				return
+			}
+		}
+		if rok && !lok && isLoadOfField(lkr.X, skipF) && ((b.Op == token.GTR && pol) || (b.Op == token.LEQ && !pol)) {
+			if mu := isNewCount(l); mu != nil {
+				got.skip = true
+				incViaLocal = true
+				return
+			}
+		}
 		if lok && rok {
 			if ((b.Op == token.LSS && pol) || (b.Op == token.GEQ && !pol)) && isLoadOfField(lkl.X, skipF) && isLoadOfField(lkr.X, countF) {
 				got.skip = true
@@ -502,7 +533,7 @@ func checkSendDecision(c *engine.Ctx, rule string) {
 		return
 	}
 	// ordering: counter incremented before the skip comparison; refcount read before the traversal is recorded
-	incBefore := false
+	incBefore := incViaLocal
 	for _, mu := range engine.MapUpdatesOfField([]*ssa.Function{decide}, countF) {
 		if b, isB := mu.Value.(*ssa.BinOp); isB && b.Op == token.ADD && skipCmp != nil && engine.Before(mu, skipCmp) {
 			incBefore = true
